@@ -44,6 +44,20 @@ def run(pid, tier, rule, assumptions):
             dp = os.path.join(wd, f"fdocs{i}.ndjson")
             wg.write_docs(dp, ch)
             jobs.append((dp, os.path.join(wd, f"frec{i}.ndjson"), fbin))
+    if pid in ("C08", "C02"):
+        # a build whose JsonInteger is long (ARDUINOJSON_USE_LONG_LONG=0; 64 bits on this platform): the integer
+        # visitors of both serializers take other branches
+        lbin = vlib.build("writer_record-nolonglong", "writer_record.cpp", defines=["ARDUINOJSON_USE_LONG_LONG=0"], **flags)
+        def small_ints(v):      # that build stores integers in 32 bits only: larger ones cannot be set at all
+            if v["t"] == "i+":
+                return int.from_bytes(bytes(v["b"]), "big") < 2**32
+            if v["t"] == "i-":
+                return int.from_bytes(bytes(v["b"]), "big") >= 2**64 - 2**31
+            return all(small_ints(c) for c in v["c"])
+        ldocs = [d for d in wg.gen_docs(rng, 300 if quick else 8000) if d.get("cls") == "plain" and small_ints(d["v"])]
+        dp = os.path.join(wd, "ldocs.ndjson")
+        wg.write_docs(dp, ldocs)
+        jobs.append((dp, os.path.join(wd, "lrec.ndjson"), lbin))
     res = vlib.run_parallel([[b, dp, out, str(vlib.seed())] for dp, out, b in jobs], timeout=900)
     good = []
     for (rc, txt), (dp, out, b) in zip(res, jobs):
